@@ -196,6 +196,7 @@ func (w *world) build(kind string) built {
 		switch c.Intn(6) {
 		case 0:
 			m.Timestamp = now - 3600 - uint32(1+c.Intn(5000)) // expired
+			b.noAcc = true
 		case 1:
 			m.Timestamp = now + uint32(c.Intn(100000)) // future: accepted
 		case 2:
